@@ -11,6 +11,7 @@ package main
 
 import (
 	"fmt"
+	"os"
 	"runtime"
 	"sort"
 	"strings"
@@ -105,6 +106,10 @@ var sampledKinds = map[string]int{}
 
 // runCase executes, counts and (after three confirming re-runs) reports.
 func runCase(c Case) {
+	if R.Expired() {
+		R.Add("cases_skipped_time_box", 1)
+		return
+	}
 	R.Eval(1)
 	R.Trace(1)
 	R.Add("cases_"+c.Kind, 1)
@@ -167,18 +172,37 @@ func main() {
 
 	setup(R.Thorough())
 	bounds := map[string]interface{}{}
+	// internal time box (only matters on an overloaded machine): the phases run
+	// in a fixed order; when it expires the remaining cases are skipped and the
+	// run is reported as capped / not exhaustive
+	if R.Thorough() {
+		R.SetBudget(14 * time.Minute)
+	} else {
+		R.SetBudget(9 * time.Minute)
+	}
 
-	runAll("pubkey_shapes", genPubKeyCases(bounds))
-	runAll("ecdsa_grid", genECDSACases(bounds))
-	runAll("schnorr_grid", genSchnorrCases(bounds))
-	runAll("der_grammar", genDERCases(bounds))
-	runAll("recover_compact", genRecoverCases(bounds))
-	runAll("signers", genSignerCases(bounds))
-	runAll("ecdh", genECDHCases(bounds))
-	runAll("musig2_noncegen", genNonceGenCases(bounds))
-	runAll("musig2_edges", genMusigEdgeCases(bounds))
-	runAll("musig2_sessions", genMusigCases(bounds))
+	phases := []struct {
+		name string
+		gen  func(map[string]interface{}) []Case
+	}{
+		{"pubkey_shapes", genPubKeyCases}, {"ecdsa_grid", genECDSACases}, {"schnorr_grid", genSchnorrCases},
+		{"der_grammar", genDERCases}, {"recover_compact", genRecoverCases}, {"signers", genSignerCases},
+		{"ecdh", genECDHCases}, {"musig2_noncegen", genNonceGenCases}, {"musig2_edges", genMusigEdgeCases},
+		{"musig2_sessions", genMusigCases},
+	}
+	// development aid (never set by the harness): run a subset of the phases
+	only := os.Getenv("VERIF_C11_PHASES")
+	for _, ph := range phases {
+		if only != "" && !strings.Contains(","+only+",", ","+ph.name+",") {
+			R.Cap("phase " + ph.name + " skipped (VERIF_C11_PHASES)")
+			continue
+		}
+		runAll(ph.name, ph.gen(bounds))
+	}
 
 	R.Set("bounds", bounds)
-	R.Finish(true)
+	if R.Expired() {
+		R.Cap("time box hit: the phases listed with wall_s completed in order, the cases counted in cases_skipped_time_box were not run")
+	}
+	R.Finish(only == "")
 }
